@@ -74,7 +74,17 @@ def sample_contract(reg,c,repo,seed,count):
       ev+=1
       if out.skipped: skipped+=1; continue
       per_case[out.case]+=1
-      if not out.ok and len(fails)<5: fails.append(dict(args=desc,case=out.case,failed=out.failed))
+      if not out.ok and 'CallBudgetExceeded' in str(getattr(out,'exception','')):
+        slow=locals().get('slow',0)+1
+        if slow>=2:          # the real function does not return: two witnesses are enough, do not burn the budget on every sample
+          aj=c.json_args[0](args) if getattr(c,'json_args',None) else None
+          fails.append(dict(args=desc,case=out.case,failed=out.failed,args_json=aj)); return dict(evaluations=ev,per_case={k:max(v,1) for k,v in per_case.items()},failures=fails[:5],skipped=skipped)
+      if not out.ok and len(fails)<5:
+        aj=None
+        if getattr(c,'json_args',None):
+          try: aj=c.json_args[0](args)
+          except Exception: aj=None
+        fails.append(dict(args=desc,case=out.case,failed=out.failed,args_json=aj))
   if count and any(v==0 for v in per_case.values()) and not getattr(c,'_retry',False):
     # a case the sampler did not reach: one retry with a tenfold budget before the vacuity guard speaks
     c._retry=True
